@@ -1176,3 +1176,55 @@ def rule_link_written_in_predecessor(ctx):
             ctx.violated("LINKPOS", key, f.where(line), "the position of the link to the new block, `%s`, is not computed from `ddlast`: for a file with more than two DD blocks the link of another block is overwritten and the blocks in between are lost" % render(x[3])[:70])
     ctx.floor("LINKPOS", 2, n, "(positions at which HTInew_dd_block writes the link to the new block)")
     return n
+
+
+def rule_cache_switch_polarity(ctx):
+    """CACHEPOL (C17): the guarantee "nothing is written into old space before the flush" rests on descriptor caching being ON, which
+    is the default and what Hcache(.., TRUE) asks for.  Hcache stores its argument in two places (the default for files opened
+    later, the flag of one open file); both stores must map a non-zero argument to TRUE and zero to FALSE.  Each right-hand side
+    that reads the argument is evaluated for 1 and for 0; an inverted store makes every file of a program that *asks* for
+    caching run uncached, and each descriptor update then goes into the old descriptor blocks ahead of the data."""
+    prog = ctx.prog
+    f = prog.func("Hcache")
+    if f is None:
+        ctx.unrecognised("CACHEPOL", "CACHEPOL:Hcache", "-", "Hcache not found")
+        return 0
+    params = [q[0] for q in f.params]
+    arg = params[1] if len(params) > 1 else None
+
+    def ev(e, v):
+        e = strip(e)
+        k = kind(e)
+        if k == "int":
+            return e[1]
+        if k == "var":
+            return v if e[1] == arg else None
+        if k == "cond":
+            c = ev(e[1], v)
+            if c is None:
+                return None
+            return ev(e[2], v) if c else ev(e[3], v)
+        if k == "un" and e[1] == "!":
+            a = ev(e[2], v)
+            return None if a is None else int(not a)
+        if k == "bin":
+            a, b = ev(e[2], v), ev(e[3], v)
+            if a is None or b is None:
+                return None
+            return {"==": int(a == b), "!=": int(a != b), "&&": int(bool(a) and bool(b)), "||": int(bool(a) or bool(b)), ">": int(a > b), "<": int(a < b)}.get(e[1])
+        return None
+
+    n = 0
+    for _b, _i, s, x in f.nodes(True):
+        if x[0] == "asg" and x[1] == "=" and arg and any(y[0] == "var" and y[1] == arg for y in walk(x[3], True)):
+            n += 1
+            key = "CACHEPOL:Hcache:%s" % (path(x[2]) or render(x[2]))[:40]
+            on, off = ev(x[3], 1), ev(x[3], 0)
+            if on is None or off is None:
+                ctx.unrecognised("CACHEPOL", key, f.where(s.get("l", f.line)), "`%s` could not be evaluated" % render(x[3])[:60])
+            elif on and not off:
+                ctx.holds("CACHEPOL", key, f.where(s.get("l", f.line)), "`%s` is TRUE for a non-zero argument and FALSE for 0" % render(x[3])[:60], nontrivial=True)
+            else:
+                ctx.violated("CACHEPOL", key, f.where(s.get("l", f.line)), "`%s` evaluates to %s for a request to switch caching on and to %s for off: asking for caching switches it off" % (render(x[3])[:60], on, off))
+    ctx.floor("CACHEPOL", 2, n, "(stores of the caching switch)")
+    return n
